@@ -10,6 +10,8 @@ from vmon.gen import atomsgen, patterns, planted, replcase
 from vmon.oracle import atomsmodel as AM
 from vmon.oracle import geometry as G
 
+from vmon.oracle.util import clone
+
 PROPERTY = "C08"
 RULE = ("Histories of one or two consecutive real replacements. (i) replace(s, p, p): atom count, every atom's position, "
         "element, charge and group, and per kind the set of bonded/angled/torsion atom tuples (atoms named by unique "
@@ -64,7 +66,7 @@ def term_sets(a, ids):
 
 
 def check_noop(ctx, st, S, P, atol, seed, w):
-    S = S.copy()
+    S = clone(S)
     S.charges = np.array([1000.0 + i / 64.0 for i in range(len(S))])
     ids = [float(c) for c in S.charges]
     before_terms = term_sets(S, ids)
@@ -114,21 +116,33 @@ def multiset(a):
     return [(e, np.asarray(p, float)) for e, p in zip(a.elements, a.positions)]
 
 
-def check_aba(ctx, st, S, A, B, patA, patB, atol, seed, w, tol):
+def check_aba(ctx, st, S, A, B, patA, patB, atol, seed, w, tol, fraction=1.0, sample="real"):
     """A->B->A restores the multiset; after A->B no A is found"""
     import mofun
     if any(e in set(S.elements) for e in set(patB["elements"]) - set(patA["elements"])):
         st.count("not_judged_structure_contains_B_elements")
         return 0
-    o1 = replcase.observe_replace(S, A, B, seed, atol=atol)
+    events.SCHEDULE["sample"] = sample
+    o1 = replcase.observe_replace(S, A, B, seed, atol=atol, **({} if fraction >= 1.0 else {"replace_fraction": fraction}))
     st.count("two_step_histories")
+    if o1["found"] is not None and replcase.matches_overlap(o1["found"]):
+        st.count("not_judged")          # occurrences that share atoms: substituting one destroys its neighbours
+        return 0
+    if fraction < 1.0 and o1["selected"] is not None:
+        # only the selected sites were substituted
+        o1 = dict(o1, found=[o1["found"][k] for k in o1["selected"]], all_found=o1["found"])
+        st.count("partial_two_step_histories")
     if o1["found"] is None or o1["exception"] is not None or replcase.matches_overlap(o1["found"]) or not o1["found"]:
         st.count("not_judged")
         return 0
     S1 = o1["result"]
     events.seed_all(seed)
     left = mofun.find_pattern_in_structure(S1, A, atol=atol)
-    if len(left):
+    if fraction < 1.0:
+        if len(left) != len(o1["all_found"]) - len(o1["found"]):
+            ctx.fail("after replacing %d of %d occurrences of A by B a new search finds %d (expected the %d untouched ones)" %
+                     (len(o1["found"]), len(o1["all_found"]), len(left), len(o1["all_found"]) - len(o1["found"])), witness=w)
+    elif len(left):
         ctx.fail("after replacing all %d occurrences of A by B a new search still finds A at %s" % (len(o1["found"]), [tuple(int(i) for i in m) for m in left][:3]), witness=w)
     st.count("refind_checked")
     o2 = replcase.observe_replace(S1, B, A, seed + 1, atol=atol)
@@ -174,7 +188,7 @@ def run_case(case, ctx):
     if kind in ("self", "aba", "site"):
         atol = case["atol"]
         pat = patterns.make(rng, case["pattern"] if kind != "site" else "single")
-        k = 1 if case["cell"].endswith("minimal") else int(rng.integers(1, 4))
+        k = 1 if case["cell"].endswith("minimal") else int(rng.integers(1, 5))
         built = planted.build(rng, pat, case["cell"], atol, n_copies=k, crossings=[int(x) for x in rng.integers(0, 4, k)],
                               poses=[planted.POSES[int(x)] for x in rng.integers(0, len(planted.POSES), k)], n_bystanders=int(rng.integers(1, 7)),
                               n_distractors=0 if kind != "self" else int(rng.integers(0, 2)), min_sep=1.3)
@@ -196,7 +210,8 @@ def run_case(case, ctx):
                 st.count("not_judged")
                 return
             tol = 1e-6 if len(pat["elements"]) == 1 else 2 * c05.bound(atol, pat["positions"], B["positions"])
-            n = check_aba(ctx, st, S, patterns.to_atoms(pat), patterns.to_atoms(B), pat, B, atol, case["s"], w, tol)
+            frac = [1.0, 0.5, 0.67][(case["s"] // 7) % 3]
+            n = check_aba(ctx, st, S, patterns.to_atoms(pat), patterns.to_atoms(B), pat, B, atol, case["s"], w, tol, fraction=frac, sample=["reversed", "real"][case["s"] % 2])
         st.seen("synthetic_kind", kind)
         st.seen("cell_class", case["cell"])
         if n:
@@ -229,6 +244,8 @@ def requirements(stats, tier):
     need = []
     if stats.get("self_replacements") < (100 if tier == "quick" else 12000) or stats.get("restorations_checked") < (100 if tier == "quick" else 12000):
         need.append("self replacements %d, restorations %d" % (stats.get("self_replacements"), stats.get("restorations_checked")))
+    if stats.get("partial_two_step_histories") < (20 if tier == "quick" else 2000):
+        need.append("two-step histories with a replacement fraction below 1: %d" % stats.get("partial_two_step_histories"))
     if stats.get("term_sets_compared") < 200:
         need.append("term sets compared only %d times" % stats.get("term_sets_compared"))
     if stats.nseen("real_self") < 5 or stats.nseen("real_site") < 5:
